@@ -276,8 +276,41 @@ def check_decode_invalid(ctx, case, res):
     return res
 
 
+def after_failed_output_probe(ctx, res, i):
+    """$encode: json gives the same text whether or not a JSON output failed part-way earlier in the same process."""
+    import os
+    d = ctx.casedir()
+    try:
+        with open(os.path.join(d, 'bad.toml'), 'w') as f:
+            f.write('first = "document %d"\nfiller = "abcdefghijklmnopqrstuvwxyz"\n---\nx = nan\n' % i)
+        enc = {'v': {'$encode': 'json', '$value': {'a': 1, 'b': [1, 'two'], 'n': i}}, 'w': {'$encode': 'json-pretty', '$value': {'k': [i]}}}
+        ops = [{'op': 'merge_doc', 'id': 'e', 'data': enc, 'parser': 60}, {'op': 'output_docs', 'parser': 60}]
+        for k in range(3):
+            ops += [{'op': 'merge_file', 'path': os.path.join(d, 'bad.toml'), 'parser': 61 + 2 * k}, {'op': 'output', 'format': 'json', 'parser': 61 + 2 * k},
+                    {'op': 'merge_doc', 'id': 'e', 'data': enc, 'parser': 62 + 2 * k}, {'op': 'output_docs', 'parser': 62 + 2 * k}]
+        r = ctx.call(ops, res)
+        if r is None:
+            return res.violate('crash', 'worker died (encode after a failed output)')
+        rs = r['results']
+        if rs[1]['err'] is not None:
+            return None
+        for k in range(3):
+            failed = rs[2 + 4 * k]['err'] is not None or rs[3 + 4 * k]['err'] is not None
+            again = rs[5 + 4 * k]
+            if again['err'] is not None or not veq(again['values'], rs[1]['values']):
+                return res.violate('encode', '$encode: json gives another text after a JSON output failed earlier in the same process' if failed else '$encode: json is not repeatable in one process',
+                                   before=rs[1]['values'], after=again.get('values'), err=again['err'])
+            res.ev('encodes_after_failed_output' if failed else 'encodes_repeated_in_process')
+    finally:
+        ctx.cleanup_case(d)
+    return None
+
+
 def check_case(ctx, case):
     res = Result()
+    if case.get('i', 0) % 64 == 7:
+        if after_failed_output_probe(ctx, res, case.get('i', 0)) is not None:
+            return res
     if case.get('mode') == 'decode-invalid':
         return check_decode_invalid(ctx, case, res)
     v, stack, host = case['value'], case['stack'], case['host']
